@@ -120,8 +120,8 @@ Proof.
   - intros x y _ _. cbn [eval eval_leaf]. rewrite (cinner_zeros_l OKR), (cinner_zeros_r OKR). reflexivity.
 Qed.
 
-(* with the repaired adjoint (variant fx = true): RealPart(X).adjoint = ComplexEmbedding(X.real_space, 1) *)
-Lemma leaf_ok_realC_fixed (w : list R) : leaf_ok (LRealC w true).
+(* RealPart(X).adjoint = ComplexEmbedding(X.real_space, 1)  (fix 8efcc84 of finding realpart-complex-adjoint-domain) *)
+Lemma leaf_ok_realC (w : list R) : leaf_ok (LRealC w).
 Proof.
   split; [|split; reflexivity]. cbn [leaf_dom leaf_ran leaf_adjoint]. split; [|split].
   - intros x Hx. apply half_len in Hx. cbn [eval_leaf]. rewrite firstn_length; lia.
@@ -131,7 +131,7 @@ Proof.
     rewrite firstn_app_exact, skipn_app_exact by (rewrite vscal_len; lia).
     rewrite !(cinner_vscal_r OKR), !conjR. cbn. ring.
 Qed.
-Lemma leaf_ok_imagC_fixed (w : list R) : leaf_ok (LImagC w true).
+Lemma leaf_ok_imagC (w : list R) : leaf_ok (LImagC w).
 Proof.
   split; [|split; reflexivity]. cbn [leaf_dom leaf_ran leaf_adjoint]. split; [|split].
   - intros x Hx. apply half_len in Hx. cbn [eval_leaf]. rewrite skipn_length; lia.
@@ -141,12 +141,6 @@ Proof.
     rewrite firstn_app_exact, skipn_app_exact by (rewrite vscal_len; lia).
     rewrite !(cinner_vscal_r OKR), !conjR. cbn. ring.
 Qed.
-(* the pinned source (fx = false) returns an operator on the complex space: wrong domain *)
-Lemma realC_adjoint_domain_refuted :
-  dom (leaf_adjoint (LRealC [1] false)) <> leaf_ran (LRealC [1] false)
-  /\ dom (leaf_adjoint (LImagC [1] false)) <> leaf_ran (LImagC [1] false).
-Proof. split; cbn; discriminate. Qed.
-
 Lemma embedR_form (w x y : list R) sr si : length x = length w -> length y = (length w + length w)%nat ->
   cinner (w ++ w) (vscal sr x ++ vscal si x) y =
   sr * cinner w x (firstn (length w) y) + si * cinner w x (skipn (length w) y).
@@ -155,9 +149,9 @@ Proof.
   rewrite firstn_app_exact, skipn_app_exact by (rewrite vscal_len; lia).
   rewrite !(cinner_vscal_l OKR). reflexivity.
 Qed.
-Lemma leaf_ok_embedR_fixed (w : list R) sr si : leaf_ok (LEmbedR w sr si true).
+Lemma leaf_ok_embedR (w : list R) sr si : leaf_ok (LEmbedR w sr si).
 Proof.
-  assert (Hdr : dom (leaf_adjoint (LEmbedR w sr si true)) = w ++ w /\ ran (leaf_adjoint (LEmbedR w sr si true)) = w).
+  assert (Hdr : dom (leaf_adjoint (LEmbedR w sr si)) = w ++ w /\ ran (leaf_adjoint (LEmbedR w sr si)) = w).
   { cbn [leaf_adjoint]. destruct (si =? nzero)%num; [split; reflexivity|]. destruct (sr =? nzero)%num; split; reflexivity. }
   split; [|exact Hdr]. cbn [leaf_dom leaf_ran]. split; [|split].
   - intros x Hx. cbn [eval_leaf]. rewrite !app_length, !vscal_len. lia.
